@@ -21,6 +21,8 @@ def check(ctx):
     ctx.rule("R07.8", "a mesh restored from a file is the mesh that was saved: every geometric array is read back into the attribute it was written from "
                       "(shared with C14 R14.1 / R14.12)", 4)
     ctx.rule("R07.7", "every hole of the device is handed to the mesh generator (the hole list is not filtered)", 1)
+    ctx.rule("R07.9", "terminal membership is computed from the polygons as they are now: memoised polygon geometry is invalidated by every method that "
+                      "rebinds what it was computed from (shared with C18 R18.8)", 2)
     ctx.rule("R07.6", "generate_mesh hands the triangulator one coordinate frame: outline, hole outlines, hole markers and boundary points "
                       "are all shifted by the same offset, and the result is shifted back", 1)
     ctx.rule("R07.5", "a constructed mesh is never modified: Mesh/EdgeMesh attributes are written by the constructors only", 1)
@@ -195,6 +197,10 @@ def check(ctx):
     ctx.decline("tiling of film minus holes, Euler characteristic, positive orientation and non-degeneracy of triangles (Triangle/meshpy), "
                 "clipped Voronoi areas of boundary cells (qhull convex hulls), terminal length 'to within one edge' (matplotlib path "
                 "membership): computed by external native libraries - no static argument in reach")
+    from ..effects import memo_discipline
+    memo_discipline(ctx, "R07.9", "a terminal polygon moved in place (Device.translate(inplace=True), `with device.translation(...)`) keeps answering "
+                                  "containment queries with its old outline: Device.terminal_info() then selects other boundary edges and the terminal "
+                                  "length is no longer the boundary length the terminal covers")
     from ..effects import mesh_immutable
     mesh_immutable(ctx, "R07.5", 'a Mesh object shared with another device (Device.copy(with_mesh=True)) or solution moves or changes under it: its triangulation no longer tiles film minus holes and its areas / dual edges disagree with its sites')
     ctx.assume("terminal length sums boundary edge lengths over the terminal's boundary edges: decided under C01 R01.4")
